@@ -34,3 +34,15 @@ func VerifG4TryWrite(s *Store) bool {
 	s.mrsw.EndWrite()
 	return true
 }
+
+// VerifG4BeginWrite takes the store's write lock exactly as Store.Reap does
+// (non-blocking); VerifG4EndWrite releases it. Together they model "a manually
+// requested reap is in progress" for as long as the harness wants.
+func VerifG4BeginWrite(s *Store, owner string) error { return s.mrsw.BeginWrite(owner) }
+
+// VerifG4EndWrite releases the write lock taken with VerifG4BeginWrite.
+func VerifG4EndWrite(s *Store) { s.mrsw.EndWrite() }
+
+// VerifG4BeginRead takes a read hold exactly as Store.Open does before it wraps
+// the stream with NewLockingStreamer (which releases it on Close / timeout).
+func VerifG4BeginRead(s *Store) error { return s.mrsw.BeginRead() }
